@@ -44,9 +44,6 @@ class PoissonTreeLikelihood(CallableModel):
             .sum(-1)
         )
 
-    def handle_parameter_changed(self, variable, index, event):
-        pass
-
     def _sample_shape(self) -> torch.Size:
         return max([model.sample_shape for model in self._models.values()], key=len)
 
